@@ -62,6 +62,18 @@ Section WithSig.
       apply bank_blocked_false. exact H.
   Qed.
 
+  (* what happens to a vesting source, read off the code: it is refused while anything it holds is locked
+     (locked_refused); once accepted its account object and vesting schedule stay where they are — neither account
+     kind nor any locked amount changes, nothing is carried over to the target *)
+  Theorem vesting_not_carried : forall s from to sg s',
+    wf s -> migrate_tx sigT recover s from to sg = Ok s' ->
+    accts s' = accts s /\ locked s' = locked s /\ (forall a d, locked_of s' a d = locked_of s a d).
+  Proof.
+    intros s from to sg s' W H. pose proof (moves_everything _ _ _ _ _ W H) as M.
+    split; [apply (mv_accts _ _ _ _ M)|]. split; [apply (mv_locked _ _ _ _ M)|].
+    intros a d. unfold locked_of. rewrite (mv_locked _ _ _ _ M). reflexivity.
+  Qed.
+
   Theorem locked_refused : forall s from to sg d x,
     sget k2_eqb (from, d) (bal s) = Some x -> 0 < locked_of s from d ->
     forall s', migrate_tx sigT recover s from to sg <> Ok s'.
